@@ -21,7 +21,7 @@ RULE = ('case = (base triple: signer algorithm x signature kind x hash x produce
 ASSUMPTIONS = ['vf.ref.sig decides whether a mutant is semantic (validated on fixtures and against gpg in C02)', 'cryptography/OpenSSL primitives',
                'forgery across a 64-bit key-id collision is not attempted']
 MIN_COUNTERS = {'quick': {'semantic_mutants': 20000, 'baseline_true': 60, 'sig_bitflips': 10000, 'subject_mutants': 2000, 'key_mutants': 300,
-                          'wrong_verifier': 20, 'type_confusion': 200, 'carrier_mutants': 2000, 'message_content_edits': 300, 'several_signature_subjects': 90, 'copies_of_altered_signatures': 2000, 'secret_form_subject_mutants': 300},
+                          'wrong_verifier': 20, 'type_confusion': 200, 'carrier_mutants': 2000, 'message_content_edits': 300, 'several_signature_subjects': 90, 'copies_of_altered_signatures': 2000, 'secret_form_subject_mutants': 300, 'cleartext_text_edits': 250},
                 'thorough': {'semantic_mutants': 100000, 'baseline_true': 200}}
 BUDGET = {'quick': (600, 1500), 'thorough': (1800, 3600)}
 TECHNIQUE = 'runtime monitoring: data-fault injection (bit flips, edits, type confusion, wrong verifier) with an independent-verifier oracle that filters equivalent mutants'
@@ -621,7 +621,53 @@ def _msgcarrier(ctx, d, pgpy):
     if d['part'] == 0:
         _msg_content_edits(ctx, d, pgpy, k, sm, pub)
         _msg_several_signatures(ctx, d, pgpy, k, pub)
+        _cleartext_edits(ctx, d, pgpy, k, sm, pub)
     ctx.nontrivial(d)
+
+
+def _cleartext_edits(ctx, d, pgpy, k, sm, pub):
+    """a cleartext signed message whose text is edited while the signature block stays: only what the framework itself discounts (trailing
+    spaces and tabs, the form of the line endings, dash escaping) may be changed without the signature failing - judged by the reference"""
+    from ..ref import armor
+    text = 'first line\n- dashed line\nthird  line with inner blanks\n\nlast line'
+    m = pgpy.PGPMessage.new(text, cleartext=True)
+    m |= k.sign(m)
+    d0 = armor.dearmor(str(m))
+    sigpkt = wire.split(d0['data'])[0]
+    hname = sorted(d0.get('hashes') or ['SHA256'])[0] if d0.get('hashes') else None
+    header = str(m).split('\n\n', 1)[0]
+    sigblock = str(m)[str(m).index('-----BEGIN PGP SIGNATURE-----'):]
+    lines = text.split('\n')
+    edits = []
+    for name, suffix in (('space', ' '), ('tab', '\t'), ('spaces-and-tabs', ' \t \t'), ('nbsp', '\u00a0'), ('em-space', '\u2003'), ('ideographic-space', '\u3000'), ('form-feed', '\x0c'),
+                         ('vertical-tab', '\x0b'), ('unit-separator', '\x1f'), ('zero-width-space', '\u200b'), ('lone-cr', '\r'), ('nel', '\u0085'), ('line-separator', '\u2028'), ('bom', '\ufeff')):
+        for where_ in (0, 2, len(lines) - 1):
+            new = list(lines)
+            new[where_] = new[where_] + suffix
+            edits.append(('trailing-%s-line-%d' % (name, where_), new))
+    edits += [('inner-blanks-collapsed', [l.replace('  ', ' ') for l in lines]), ('leading-blank-added', [' ' + lines[0]] + lines[1:]), ('empty-line-dropped', [l for l in lines if l != '']),
+              ('empty-line-added-at-end', lines + ['']), ('case', [l.upper() for l in lines]), ('dash-line-unescaped-text', [l.replace('- dashed', 'dashed') for l in lines]),
+              ('lines-joined', [lines[0] + lines[1]] + lines[2:])]
+    for name, new in edits:
+        for eol in ('\n', '\r\n'):
+            armored = header.replace('\n', eol) + eol + eol + eol.join(armor.dash_escape(new)) + eol + sigblock.replace('\n', eol)
+            # the reference reads the armored text itself (a CR in front of a line ending is part of that line ending)
+            try:
+                from .C11 import ref_verify_cleartext
+                _l, rres, _d = ref_verify_cleartext(armored, [sm])
+                klass = 'valid' if rres and all(ok for ok, _ in rres) else 'invalid'
+            except wire.Malformed:
+                klass = 'malformed'
+            ctx.count('carrier_mutants')
+            ctx.count('cleartext_text_edits')
+            try:
+                with time_limit(10):
+                    res, _ = sigwork.pgpy_verify(pub, pgpy.PGPMessage.from_blob(armored))
+            except Stalled:
+                res = 'error:stalled'
+            except Exception:
+                res = 'error:load'
+            judge(ctx, klass, res, 'cleartext-' + name, d, {'transport': repr(eol), 'edited_lines': [x[:30] for x in new][:5]})
 
 
 def _msg_several_signatures(ctx, d, pgpy, k, pub):
